@@ -16,7 +16,7 @@ one() {
   git -C /repo worktree add -q --detach "$D/wt" HEAD || { echo "$name BROKEN worktree"; rm -rf $D; return; }
   if ! git -C "$D/wt" apply $S/patch.diff 2>/dev/null && ! { git -C "$D/wt" apply -3 $S/patch.diff >/dev/null 2>&1 && [ -z "$(git -C "$D/wt" diff --name-only --diff-filter=U)" ]; }; then echo "$name NOAPPLY"; git -C /repo worktree remove --force "$D/wt"; rm -rf $D; return; fi
   if ! (cd "$D/wt" && go build ./... ) >$D/build.log 2>&1; then echo "$name BROKEN build"; git -C /repo worktree remove --force "$D/wt"; rm -rf $D; return; fi
-  mkdir -p "$D/v/bin" "$D/v/evidence" "$D/v/replays"; cp -r /verif/harness "$D/v/harness"; cp /verif/bin/vcheck "$D/v/bin/"; cp /verif/known-findings.txt "$D/v/"
+  mkdir -p "$D/v/bin" "$D/v/evidence" "$D/v/replays"; cp -r ${HARNESS_SRC:-/verif/harness} "$D/v/harness"; cp /verif/bin/vcheck "$D/v/bin/"; cp /verif/known-findings.txt "$D/v/"
   sed -i "s#=> /repo#=> $D/wt#" "$D/v/harness/go.mod"
   VERIF_DIR="$D/v" timeout -s QUIT 1500 "$D/v/bin/vcheck" $ID quick >$D/check.log 2>&1; rc=$?
   keys=$(grep -E '^  key:' $D/check.log | sort -u | sed 's/^  key: //' | tr '\n' ',' | cut -c1-160)
